@@ -98,8 +98,12 @@ def arbitrary(o):
     """shape guard; the integrated array is pdf * Phi((x - s_50)/s_S) element-wise over the given load values"""
     f, sm, ss = fp(o)
     xv, pdf = o.reals('load_value load_pdf')
-    r = o.run1(lambda: call(o, f, 'pf_arbitrary_load', SV(xv, kind='ndarray'), SV(pdf, kind='ndarray')), label='pf_arbitrary_load')
+    a_x, a_pdf = SV(xv, kind='ndarray'), SV(pdf, kind='ndarray')
+    n_mut = len(o.I.mutated)
+    r = o.run1(lambda: call(o, f, 'pf_arbitrary_load', a_x, a_pdf), label='pf_arbitrary_load')
     rec = o.I.quad_records[-1]
+    o.prove('frame: the arrays handed in are not written (no in-place operation on load_values / load_pdf)',
+            z3.BoolVal(not any(m is a_x or m is a_pdf for m in o.I.mutated[n_mut:])), kind='frame')
     o.prove('integrand == pdf * Phi((x - s_50)/s_S)', rec['integrand'] == pdf * Phi((xv - lg(sm)) / ss))
     o.prove('integration variable is the array of load values', rec['x'] == xv)
     ps = o.paths(lambda: call(o, f, 'pf_arbitrary_load', SV(xv, kind='ndarray'), SV(pdf, kind='scalar')))
